@@ -104,6 +104,32 @@ def gen_cases(rng, tier):
         miter = rng.choice([0.5, 1.0, 1.05, 1.2, 1.41, 1.5, 2.0, 4.0, 4.0, 10.0, 20.0])
         res = rng.choice([1.0, 1.0, 1.0, 0.25, 4.0])
         cases.append(("stroke_geo", [f2b(width), f2b(miter), rng.randrange(3), rng.randrange(4), f2b(res)] + rand_stroke_path(rng)))
+    # cubics and quads with all control points on one line, at arbitrary positions along it (overshooting the end point, turning
+    # back once or twice): the stroke must reach the farthest point the curve reaches, in both directions of travel
+    for i in range(120 if q else 1500):
+        width = rng.choice([4.0, 10.0, 20.0])
+        ang = rng.choice([0.0, math.pi / 2, rng.uniform(0, 6.283)])
+        o = (round(rng.uniform(-20, 20), 1), round(rng.uniform(-20, 20), 1))
+        k = rng.random()
+        if k < 0.4:
+            pos = [0.0, rng.uniform(5, 40), rng.uniform(150, 300), rng.uniform(60, 120)]       # runs out beyond the end, turns back once
+        elif k < 0.6:
+            pos = [0.0, rng.uniform(-200, -80), rng.uniform(20, 60), rng.uniform(80, 140)]     # backs out behind the start first
+        elif k < 0.8:
+            pos = [0.0, rng.uniform(150, 300), rng.uniform(-200, -100), rng.uniform(40, 100)]  # two turning points
+        else:
+            pos = sorted(rng.uniform(0, 200) for _ in range(4))
+        if rng.random() < 0.5:
+            pos = pos[::-1]
+        pts = [(o[0] + d * math.cos(ang), o[1] + d * math.sin(ang)) for d in pos]
+        if ang in (0.0, math.pi / 2):
+            pts = [(round(x, 2), round(y, 2)) for x, y in pts]
+        ops = [0, f2b(pts[0][0]), f2b(pts[0][1])]
+        if i % 5 == 4:
+            ops += [2, f2b(pts[2][0]), f2b(pts[2][1]), f2b(pts[3][0]), f2b(pts[3][1])]
+        else:
+            ops += [3] + [f2b(v) for pt_ in pts[1:] for v in pt_]
+        cases.append(("stroke_geo", [f2b(width), f2b(4.0), rng.randrange(3), rng.randrange(4), f2b(1.0)] + ops))
     # gentle curves with a degenerate control point at one end, followed / preceded by a line or ending in a cap:
     # the end normal of the curve decides the cap and the join
     for i in range(300 if q else 4000):
@@ -181,7 +207,7 @@ def oracle(suite, args, out):
                 o[4], joins[args[3] % 4], o[5] / 1000.0, o[6] / 1000.0, o[7] / 1000.0)
             return ("MITERCLIP: " + s) if args[3] % 4 == 1 else s
         if o[2] > 0:
-            where = {1: "a straight piece", 4: "an end point with a round cap", 5: "the square cap box beyond an end point", 6: "a vertex with a round join"}.get(o[8], "the path")
+            where = {1: "a straight piece", 4: "an end point with a round cap", 5: "the square cap box beyond an end point", 6: "a vertex with a round join", 7: "the straight stretch traced by a curve whose control points are collinear"}.get(o[8], "the path")
             return "%d of %d points within half the stroke width of %s are not covered (first (%.3f,%.3f))" % (o[2], o[1], where, o[6] / 1000.0, o[7] / 1000.0)
         if o[10] > 0:
             return "%d of %d zero-length contours did not get their round / square dot" % (o[10], o[9])
